@@ -37,7 +37,7 @@ func (QSubScenario) Name() string { return "qsub" }
 
 func (QSubScenario) GenCase(r *rand.Rand, prop string) interface{} {
 	c := &QSubCase{Workers: pick(r, 1, 2, 4), QueryMs: pick(r, 50, 1000), Affected: true}
-	for _, p := range append(append([]string{}, storePoints...), "updateIndex.afterCommit", "conn.Publish", "event", "rawEvent", "worker.beforeCb", "queryListener.recv", "runWith.beforeLock", "handleRequest") {
+	for _, p := range append(append([]string{}, storePoints...), "updateIndex.afterCommit", "conn.Publish", "event", "rawEvent", "worker.beforeCb", "queryListener.recv", "runWith.beforeLock", "handleRequest", "auto.lock") {
 		if chance(r, 60) {
 			c.Optional = append(c.Optional, p)
 		}
